@@ -98,7 +98,15 @@ func stateInlineAnnotationTextPrefix(s *Scanner, c byte) state {
 	case bytes.IsNewLine(c):
 		s.found(lexeme.InlineAnnotationEnd)
 		s.found(lexeme.NewLine)
-		s.step = s.returnToStep.Pop()
+		// As after an annotation which ends in a note: no annotation on a line
+		// of its own may follow.
+		fn := s.returnToStep.Pop()
+		s.step = func(s *Scanner, c byte) state {
+			if s.isAnnotationStart(c) && s.annotation != annotationMultiLine {
+				panic(s.newDocumentErrorAtCharacter("after inline annotation"))
+			}
+			return fn(s, c)
+		}
 
 		s.annotation = annotationNone
 		if s.isInsideMultiLineAnnotation() {
